@@ -267,14 +267,24 @@ type guardedCall struct {
 	Type, Method, Field string
 }
 
+// ctorName: constructor-like by name.  Methods only when they are the JSON decoding hooks (a method called loadX
+// or buildX on a shared object may well be a lazy initialiser); plain functions when they are named like
+// constructors / readers / migrations.  Everything else must earn it through its callers (ctorLike below).
 func ctorName(n string) bool {
+	isMethod := strings.Contains(n, ".")
 	if i := strings.LastIndex(n, "."); i >= 0 {
 		n = n[i+1:]
 	}
-	if n == "UnmarshalJSON" || n == "init" || n == "UnmarshalText" {
+	if n == "UnmarshalJSON" || n == "UnmarshalText" {
 		return true
 	}
-	for _, p := range []string{"Read", "New", "read", "new", "Must", "Parse", "parse", "Load", "load", "Unmarshal", "unmarshal", "Build", "build", "Migrate", "migrate"} {
+	if isMethod {
+		return false
+	}
+	if n == "init" {
+		return true
+	}
+	for _, p := range []string{"Read", "New", "read", "new", "Must", "Parse", "parse", "Migrate", "migrate"} {
 		if strings.HasPrefix(n, p) {
 			return true
 		}
@@ -603,6 +613,24 @@ func (c *funcCtx) scan(body ast.Node) {
 					}
 				}
 			}
+			// library functions that reorder their argument in place: a write to every element
+			if sel, ok := ast.Unparen(x.Fun).(*ast.SelectorExpr); ok && len(x.Args) > 0 {
+				if fo, ok := c.info.Uses[sel.Sel].(*types.Func); ok && fo.Pkg() != nil {
+					pp, nn := fo.Pkg().Path(), fo.Name()
+					inPlace := (pp == "sort" && (nn == "Strings" || nn == "Ints" || nn == "Float64s" || nn == "Slice" || nn == "SliceStable" || nn == "Sort" || nn == "Stable")) ||
+						(pp == "slices" && (nn == "Sort" || nn == "SortFunc" || nn == "SortStableFunc" || nn == "Reverse")) ||
+						(pp == "math/rand" && nn == "Shuffle")
+					if inPlace {
+						arg := ast.Unparen(x.Args[0])
+						if conv, ok := arg.(*ast.CallExpr); ok && len(conv.Args) == 1 { // sort.Sort(byX(s))
+							if tv, ok := c.info.Types[conv.Fun]; ok && tv.IsType() {
+								arg = ast.Unparen(conv.Args[0])
+							}
+						}
+						c.record(&ast.IndexExpr{X: arg, Index: &ast.Ident{Name: "_"}, Lbrack: arg.Pos()}, "GwIndex", stack)
+					}
+				}
+			}
 			if id, ok := ast.Unparen(x.Fun).(*ast.Ident); ok {
 				if b, ok := c.info.Uses[id].(*types.Builtin); ok {
 					switch b.Name() {
@@ -887,6 +915,79 @@ func main() {
 		}
 	}
 
+	// callers: which functions reference which (calls and function values)
+	callers := map[*types.Func]map[*types.Func]bool{}
+	topLevelUse := map[*types.Func]bool{} // referenced from a package-level initialiser
+	for _, p := range a.pkgs {
+		for _, f := range p.Syntax {
+			for _, d := range f.Decls {
+				switch dd := d.(type) {
+				case *ast.FuncDecl:
+					if dd.Body == nil {
+						continue
+					}
+					caller, _ := p.TypesInfo.Defs[dd.Name].(*types.Func)
+					ast.Inspect(dd.Body, func(nn ast.Node) bool {
+						if id, ok := nn.(*ast.Ident); ok {
+							if fo, ok := p.TypesInfo.Uses[id].(*types.Func); ok {
+								fo = fo.Origin()
+								if callers[fo] == nil {
+									callers[fo] = map[*types.Func]bool{}
+								}
+								callers[fo][caller] = true
+							}
+						}
+						return true
+					})
+				case *ast.GenDecl:
+					ast.Inspect(dd, func(nn ast.Node) bool {
+						if id, ok := nn.(*ast.Ident); ok {
+							if fo, ok := p.TypesInfo.Uses[id].(*types.Func); ok {
+								topLevelUse[fo.Origin()] = true
+							}
+						}
+						return true
+					})
+				}
+			}
+		}
+	}
+	// constructor-like by use: an unexported function all of whose callers are constructor-like (helpers such as
+	// initializeFromRoot that only run while the object is being built)
+	var ctorLike func(f *types.Func, depth int) bool
+	ctorLike = func(f *types.Func, depth int) bool {
+		if f == nil {
+			return false
+		}
+		name := f.Name()
+		if sig, ok := f.Type().(*types.Signature); ok && sig.Recv() != nil {
+			name = "recv." + name
+		}
+		if ctorName(name) {
+			return true
+		}
+		if f.Exported() || depth > 4 {
+			return false
+		}
+		cs := callers[f.Origin()]
+		if len(cs) == 0 {
+			return false
+		}
+		for c := range cs {
+			if c == f {
+				continue
+			}
+			if !ctorLike(c, depth+1) {
+				return false
+			}
+		}
+		return true
+	}
+	for i := range writes {
+		if !writes[i].Ctor && writes[i].fn != nil && ctorLike(writes[i].fn, 0) {
+			writes[i].Ctor = true
+		}
+	}
 	for i := range writes {
 		for _, g := range guardedCalls {
 			if writes[i].Root == "RtRecv" && writes[i].Type == g.Type && writes[i].Func == g.Method && writes[i].Field == g.Field {
@@ -1057,43 +1158,6 @@ func main() {
 	}
 	sort.Slice(lvs, func(i, j int) bool { return lvs[i].Pkg+lvs[i].Var < lvs[j].Pkg+lvs[j].Var })
 
-	// callers: which functions reference which (calls and function values)
-	callers := map[*types.Func]map[*types.Func]bool{}
-	topLevelUse := map[*types.Func]bool{} // referenced from a package-level initialiser
-	for _, p := range a.pkgs {
-		for _, f := range p.Syntax {
-			for _, d := range f.Decls {
-				switch dd := d.(type) {
-				case *ast.FuncDecl:
-					if dd.Body == nil {
-						continue
-					}
-					caller, _ := p.TypesInfo.Defs[dd.Name].(*types.Func)
-					ast.Inspect(dd.Body, func(nn ast.Node) bool {
-						if id, ok := nn.(*ast.Ident); ok {
-							if fo, ok := p.TypesInfo.Uses[id].(*types.Func); ok {
-								fo = fo.Origin()
-								if callers[fo] == nil {
-									callers[fo] = map[*types.Func]bool{}
-								}
-								callers[fo][caller] = true
-							}
-						}
-						return true
-					})
-				case *ast.GenDecl:
-					ast.Inspect(dd, func(nn ast.Node) bool {
-						if id, ok := nn.(*ast.Ident); ok {
-							if fo, ok := p.TypesInfo.Uses[id].(*types.Func); ok {
-								topLevelUse[fo.Origin()] = true
-							}
-						}
-						return true
-					})
-				}
-			}
-		}
-	}
 	var initOnly func(f *types.Func, depth int) bool
 	initOnly = func(f *types.Func, depth int) bool {
 		if f == nil {
